@@ -110,6 +110,72 @@ Global Hint Rewrite gt_st gc_st go_st gt_sc gc_sc go_sc gt_so gc_so go_so gt_sp 
   pend_sg pend_sd pend_sq caps_sg caps_sd caps_sq
   gt_set_parked gc_set_parked go_set_parked qclosed_set_parked pend_set_parked caps_set_parked : frame.
 
+(** *** frame rules for the later-subscription pumps, [s_last], [s_qclosing] and their updates *)
+Lemma gx_st s t v k : gx (st s t v) k = gx s k. Proof. reflexivity. Qed.
+Lemma gx_sc s c v k : gx (sc s c v) k = gx s k. Proof. reflexivity. Qed.
+Lemma gx_so s o v k : gx (so s o v) k = gx s k. Proof. reflexivity. Qed.
+Lemma gx_sp s l k : gx (sp s l) k = gx s k. Proof. reflexivity. Qed.
+Lemma gx_sg s i k : gx (sg s i) k = gx s k. Proof. reflexivity. Qed.
+Lemma gx_sd s i k : gx (sd s i) k = gx s k. Proof. reflexivity. Qed.
+Lemma gx_sq s m k : gx (sq s m) k = gx s k. Proof. reflexivity. Qed.
+Lemma gx_sqb s m k : gx (sqb s m) k = gx s k. Proof. reflexivity. Qed.
+Lemma gx_sqe s k : gx (sqe s) k = gx s k. Proof. reflexivity. Qed.
+Lemma gx_sl s c t k : gx (sl s c t) k = gx s k. Proof. reflexivity. Qed.
+Lemma gx_touch s t k : gx (touch s t) k = gx s k. Proof. reflexivity. Qed.
+Lemma gx_set_where s o w k : gx (set_where s o w) k = gx s k. Proof. reflexivity. Qed.
+Lemma gx_set_parked s o b w k : gx (set_parked s o b w) k = gx s k. Proof. reflexivity. Qed.
+Lemma gx_item_where s x w k : gx (item_where s x w) k = gx s k. Proof. destruct x; reflexivity. Qed.
+Lemma gx_sx s k v k' : gx (sx s k v) k' = if k' =? k then v else gx s k'.
+Proof. unfold gx, sx; simpl. apply aget_aset. Qed.
+
+Lemma gt_sx s k v t : gt (sx s k v) t = gt s t. Proof. reflexivity. Qed.
+Lemma gc_sx s k v c : gc (sx s k v) c = gc s c. Proof. reflexivity. Qed.
+Lemma go_sx s k v o : go (sx s k v) o = go s o. Proof. reflexivity. Qed.
+Lemma gt_sl s c x t : gt (sl s c x) t = gt s t. Proof. reflexivity. Qed.
+Lemma gc_sl s c x c' : gc (sl s c x) c' = gc s c'. Proof. reflexivity. Qed.
+Lemma go_sl s c x o : go (sl s c x) o = go s o. Proof. reflexivity. Qed.
+Lemma gt_sqb s m t : gt (sqb s m) t = aget topic0 t m. Proof. reflexivity. Qed.
+Lemma gc_sqb s m c : gc (sqb s m) c = gc s c. Proof. reflexivity. Qed.
+Lemma go_sqb s m o : go (sqb s m) o = go s o. Proof. reflexivity. Qed.
+Lemma gt_sqe s t : gt (sqe s) t = gt s t. Proof. reflexivity. Qed.
+Lemma gc_sqe s c : gc (sqe s) c = gc s c. Proof. reflexivity. Qed.
+Lemma go_sqe s o : go (sqe s) o = go s o. Proof. reflexivity. Qed.
+
+Lemma qclosed_sx s k v : s_qclosed (sx s k v) = s_qclosed s. Proof. reflexivity. Qed.
+Lemma qclosed_sl s c t : s_qclosed (sl s c t) = s_qclosed s. Proof. reflexivity. Qed.
+Lemma qclosed_sqb s m : s_qclosed (sqb s m) = s_qclosed s. Proof. reflexivity. Qed.
+Lemma qclosed_sqe s : s_qclosed (sqe s) = true. Proof. reflexivity. Qed.
+Lemma pend_sx s k v : s_pend (sx s k v) = s_pend s. Proof. reflexivity. Qed.
+Lemma pend_sl s c t : s_pend (sl s c t) = s_pend s. Proof. reflexivity. Qed.
+Lemma pend_sqb s m : s_pend (sqb s m) = s_pend s. Proof. reflexivity. Qed.
+Lemma pend_sqe s : s_pend (sqe s) = s_pend s. Proof. reflexivity. Qed.
+Lemma caps_sx s k v : s_caps (sx s k v) = s_caps s. Proof. reflexivity. Qed.
+Lemma caps_sl s c t : s_caps (sl s c t) = s_caps s. Proof. reflexivity. Qed.
+Lemma caps_sqb s m : s_caps (sqb s m) = s_caps s. Proof. reflexivity. Qed.
+Lemma caps_sqe s : s_caps (sqe s) = s_caps s. Proof. reflexivity. Qed.
+
+Lemma qclosing_st s t v : s_qclosing (st s t v) = s_qclosing s. Proof. reflexivity. Qed.
+Lemma qclosing_sc s c v : s_qclosing (sc s c v) = s_qclosing s. Proof. reflexivity. Qed.
+Lemma qclosing_so s o v : s_qclosing (so s o v) = s_qclosing s. Proof. reflexivity. Qed.
+Lemma qclosing_sp s l : s_qclosing (sp s l) = s_qclosing s. Proof. reflexivity. Qed.
+Lemma qclosing_sg s i : s_qclosing (sg s i) = s_qclosing s. Proof. reflexivity. Qed.
+Lemma qclosing_sd s i : s_qclosing (sd s i) = s_qclosing s. Proof. reflexivity. Qed.
+Lemma qclosing_sx s k v : s_qclosing (sx s k v) = s_qclosing s. Proof. reflexivity. Qed.
+Lemma qclosing_sl s c t : s_qclosing (sl s c t) = s_qclosing s. Proof. reflexivity. Qed.
+Lemma qclosing_sq s m : s_qclosing (sq s m) = true. Proof. reflexivity. Qed.
+Lemma qclosing_sqb s m : s_qclosing (sqb s m) = true. Proof. reflexivity. Qed.
+Lemma qclosing_sqe s : s_qclosing (sqe s) = s_qclosing s. Proof. reflexivity. Qed.
+Lemma qclosing_touch s t : s_qclosing (touch s t) = s_qclosing s. Proof. reflexivity. Qed.
+Lemma qclosing_set_where s o w : s_qclosing (set_where s o w) = s_qclosing s. Proof. reflexivity. Qed.
+Lemma qclosing_set_parked s o b w : s_qclosing (set_parked s o b w) = s_qclosing s. Proof. reflexivity. Qed.
+Lemma qclosing_item_where s x w : s_qclosing (item_where s x w) = s_qclosing s. Proof. destruct x; reflexivity. Qed.
+
+Global Hint Rewrite gx_st gx_sc gx_so gx_sp gx_sg gx_sd gx_sq gx_sqb gx_sqe gx_sl gx_touch gx_set_where gx_set_parked
+  gx_item_where gx_sx gt_sx gc_sx go_sx gt_sl gc_sl go_sl gt_sqb gc_sqb go_sqb gt_sqe gc_sqe go_sqe
+  qclosed_sx qclosed_sl qclosed_sqb qclosed_sqe pend_sx pend_sl pend_sqb pend_sqe caps_sx caps_sl caps_sqb caps_sqe
+  qclosing_st qclosing_sc qclosing_so qclosing_sp qclosing_sg qclosing_sd qclosing_sx qclosing_sl qclosing_sq
+  qclosing_sqb qclosing_sqe qclosing_touch qclosing_set_where qclosing_set_parked qclosing_item_where : frame.
+
 Lemma enqueue_gt s t o hi t' :
   gt (enqueue s t o hi) t' =
   if t' =? t then set_chan (gt s t) hi (fpush (IMsg o) (chan_of (gt s t) hi)) else gt s t'.
@@ -125,7 +191,11 @@ Lemma enqueue_go s t o hi o' :
   if o' =? o then mkO (o_id (go s o)) (o_topic (go s o)) (o_slot (go s o)) (o_pool (go s o)) true (PChan t hi)
   else go s o'.
 Proof. unfold enqueue. rewrite go_so, go_st. reflexivity. Qed.
-Global Hint Rewrite enqueue_gt enqueue_gc enqueue_qclosed enqueue_pend enqueue_go : frame.
+Lemma enqueue_gx s t o hi k : gx (enqueue s t o hi) k = gx s k.
+Proof. reflexivity. Qed.
+Lemma enqueue_qclosing s t o hi : s_qclosing (enqueue s t o hi) = s_qclosing s.
+Proof. reflexivity. Qed.
+Global Hint Rewrite enqueue_gt enqueue_gc enqueue_qclosed enqueue_pend enqueue_go enqueue_gx enqueue_qclosing : frame.
 
 Lemma set_chan_closed tp hi f : t_closed (set_chan tp hi f) = t_closed tp.
 Proof. destruct hi; reflexivity. Qed.
